@@ -434,6 +434,21 @@ func searchIntKey(p *thrift.BinaryProtocol, id int) (tt thrift.Type, start int, 
 	return
 }
 
+// pathFitsType tells if a path of the given kind can be applied to a value of thrift type t
+// (other path kinds are rejected by their own cases)
+func pathFitsType(pt PathType, t thrift.Type) bool {
+	switch pt {
+	case PathFieldId, PathFieldName:
+		return t == thrift.STRUCT
+	case PathIndex:
+		return t == thrift.LIST || t == thrift.SET
+	case PathStrKey, PathIntKey, PathBinKey:
+		return t == thrift.MAP
+	default:
+		return true
+	}
+}
+
 // GetByPath searches longitudinally and return a sub node at the given path from the node.
 //
 // The path is a list of PathFieldId, PathIndex, PathStrKey, PathBinKey, PathIntKey,
@@ -456,6 +471,10 @@ func (self Node) GetByPath(pathes ...Path) Node {
 	var err error
 
 	for i, path := range pathes {
+		// the path must fit the shape of the value it is applied to
+		if !pathFitsType(path.t, tt) {
+			return errNode(meta.ErrDismatchType, fmt.Sprintf("%dth path %s does not fit a %s value", i, path, tt), nil)
+		}
 		switch path.t {
 		case PathFieldId:
 			tt, start, err = searchFieldId(&p, path.id())
